@@ -560,8 +560,18 @@ def oracle_formatting(in_doc, edit, res, author=SESSION_AUTHOR):
                     t = "".join(a.get("s", "") for a in c["run"]["ch"] if a["k"] == "t")
                     got.append((t, sem.onoff_true(c["run"].get("b")), sem.onoff_true(c["run"].get("i"))))
         # inherited bold/italic of the style source is not 'rendering': compare text always, flags only where a span asks
-        if "".join(t for t, _, _ in got) != "".join(t for t, _, _ in exp):
-            fails.append(f"new text {new!r} was inserted as {''.join(t for t, _, _ in got)!r}, expected {''.join(t for t, _, _ in exp)!r}")
+        got_t, exp_t = "".join(t for t, _, _ in got), "".join(t for t, _, _ in exp)
+        # context shared by target and new text is left in place: only the differing middle is inserted
+        tgt = edit["target"]
+        lead = 0
+        while lead < min(len(tgt), len(exp_t)) and tgt[lead] == exp_t[lead]:
+            lead += 1
+        trail = 0
+        while trail < min(len(tgt), len(exp_t)) - lead and tgt[-1 - trail] == exp_t[-1 - trail]:
+            trail += 1
+        ok_texts = {exp_t[a:len(exp_t) - b] for a in range(lead + 1) for b in range(trail + 1)}
+        if got_t not in ok_texts:
+            fails.append(f"new text {new!r} was inserted as {got_t!r}, expected {exp_t!r} (shared context with the target aside)")
         elif len(got) == len(exp):
             for (t, b, i), (t2, b2, i2) in zip(got, exp):
                 if (b2 and not b) or (i2 and not i):
